@@ -23,6 +23,14 @@ def main():
         import check_tree
 
         return check_tree.run(a.prop, a.tier, replay=a.replay)
+    if a.prop == "C20":
+        import check_c20
+
+        return check_c20.run(a.prop, a.tier, replay=a.replay)
+    if a.prop == "C19":
+        import check_c19
+
+        return check_c19.run(a.prop, a.tier, replay=a.replay)
     if a.prop == "C18":
         import check_c18
 
